@@ -74,6 +74,40 @@ def run_mutant(m: M, props: list[str] | None) -> dict:
         shutil.rmtree(tmp, ignore_errors=True)
 
 
+def seeded_variants() -> list[tuple[str, str, str]]:
+    """(id, target property, patch path) of the independently produced changes kept under /verif/seeded that the
+    target property's check is expected to report (meta.json: caught_by_target_property_check)."""
+    out = []
+    root = VERIF / "seeded"
+    if not root.is_dir():
+        return out
+    for d in sorted(root.iterdir()):
+        meta = d / "meta.json"
+        if not meta.exists():
+            continue
+        try:
+            m = json.loads(meta.read_text())
+        except ValueError:
+            continue
+        if m.get("caught_by_target_property_check"):
+            out.append((m["id"], m["breaks_property"], str(d / "patch.diff")))
+    return out
+
+
+def run_seeded(sid: str, prop: str, patch: str) -> dict:
+    tmp = tempfile.mkdtemp(prefix="fm_selftest_")
+    try:
+        _copy_tree(tmp)
+        r = subprocess.run(["patch", "-p1", "-s", "-f", "-d", tmp, "-i", patch], capture_output=True, text=True)
+        if r.returncode != 0:
+            return {"id": "seeded:" + sid, "status": "skipped", "why": "patch does not apply to the current tree"}
+        rc, out = _run_check(prop, tmp)
+        hit = rc == 1 and "VIOLATION" in out
+        return {"id": "seeded:" + sid, "status": "detected" if hit else "MISSED", "checks": {prop: {"rc": rc, "detected": hit}}}
+    finally:
+        shutil.rmtree(tmp, ignore_errors=True)
+
+
 def run_benign(b: B, props: list[str], baseline: dict[str, int]) -> dict:
     tmp = tempfile.mkdtemp(prefix="fm_selftest_")
     try:
@@ -101,6 +135,8 @@ def selftest(props: list[str] | None = None, jobs: int = 16) -> dict:
     muts = [m for m in MUTANTS if not props or set(m.props) & set(props)]
     with ThreadPoolExecutor(max_workers=jobs) as ex:
         mres = list(ex.map(lambda m: run_mutant(m, props), muts))
+        seeds = [x for x in seeded_variants() if not props or x[1] in props]
+        mres += list(ex.map(lambda x: run_seeded(*x), seeds))
         bres = list(ex.map(lambda b: run_benign(b, sel, baseline), BENIGN))
     return {
         "baseline_rc": baseline,
